@@ -119,27 +119,57 @@ func (dss *dataStoreSet) getDb(index int, create bool) (ds *dataStore, valid boo
 	return
 }
 
-func (dss *dataStoreSet) flushDb(index int) {
+// Flushing empties the data stores in place: connections that selected a database
+// earlier, blocked clients and watched keys all refer to the same data store object.
+func (dss *dataStoreSet) flushDb(dsc *dataStoreCommand, index int) {
 	dss.mu.Lock()
-	defer dss.mu.Unlock()
+	ds, exists := dss.dbs[index]
+	dss.mu.Unlock()
 
-	delete(dss.dbs, index)
+	if exists {
+		if ds != dsc.ds {
+			dsc = ds.newDataStoreCommand()
+		}
+		dsc.lock()
+		defer dsc.unlock()
+		ds.data = newRedisDict()
+	}
 	if dss.basePath != "" {
 		// the flushed content must not come back after a restart
 		os.Remove(dss.dataStoreFileName(index))
 	}
 }
 
-func (dss *dataStoreSet) flushAll() {
-	dss.mu.Lock()
-	defer dss.mu.Unlock()
+func (dss *dataStoreSet) flushAll(dsc *dataStoreCommand) {
+	// all data store locks are held together, as for the other multi-data store operations
+	multiDataStoreLock.Lock()
+	defer multiDataStoreLock.Unlock()
 
+	dss.mu.Lock()
+	stores := make([]*dataStore, 0, len(dss.dbs))
+	for index := 0; index < 16; index++ {
+		if ds, exists := dss.dbs[index]; exists {
+			stores = append(stores, ds)
+		}
+	}
+	dss.mu.Unlock()
+
+	for _, ds := range stores {
+		c := dsc
+		if ds != dsc.ds {
+			c = ds.newDataStoreCommand()
+		}
+		c.lock()
+		defer c.unlock()
+	}
+	for _, ds := range stores {
+		ds.data = newRedisDict()
+	}
 	if dss.basePath != "" {
 		for index := 0; index < 16; index++ {
 			os.Remove(dss.dataStoreFileName(index))
 		}
 	}
-	dss.dbs = map[int]*dataStore{}
 }
 
 func (dss *dataStoreSet) getUser(userName string) (dsu *dataStoreUser, exists bool) {
